@@ -29,6 +29,13 @@ type C14Case struct {
 	Res int `json:"res,omitempty"`
 	// NonFinite: some float elements are +Inf, -Inf or NaN (ordinary float64 values for every view)
 	NonFinite bool `json:"nonfinite,omitempty"`
+	// Big > 0: Kinds is not spelled out but built at check time: Big elements of kind BigKind, except that
+	// (BigOdd >= 0) the element BigOdd positions before the end has kind OddKind (a single stray element
+	// at the far end of a list of thousands: what a chunked or parallel predicate must still see)
+	Big     int  `json:"big,omitempty"`
+	BigKind Kind `json:"bigkind,omitempty"`
+	BigOdd  int  `json:"bigodd,omitempty"`
+	OddKind Kind `json:"oddkind,omitempty"`
 }
 
 // nonFinite is set for the duration of one case; the processes are single-threaded per case.
@@ -75,6 +82,14 @@ func GenC14(t *rapid.T) *C14Case {
 	alphabet := make([]Kind, nk)
 	for i := range alphabet {
 		alphabet[i] = Kind(drawIdx(t, 7, "kind"))
+	}
+	if oneIn(t, 200, "big") {
+		big := &C14Case{Big: []int{1025, 2049, 4096, 4097, 4098, 4099, 4099, 8191}[drawIdx(t, 8, "bign")], BigKind: Kind(drawIdx(t, 7, "kind")),
+			BigOdd: drawInt(t, -1, 4, "bigodd"), OddKind: Kind(drawIdx(t, 7, "oddkind")), Pred: drawInt(t, 0, 3, "pred"), Route: drawInt(t, 0, numListRoutes-1, "route")}
+		if big.BigKind == KList || big.BigKind == KObject {
+			big.BigKind = KInt
+		}
+		return big
 	}
 	c := &C14Case{Object: oneIn(t, 3, "obj"), Pred: drawInt(t, 0, 3, "pred"), Route: drawInt(t, 0, numListRoutes-1, "route"), Derived: oneIn(t, 4, "derived")}
 	if drawBool(t, "respass") {
@@ -1075,6 +1090,22 @@ func CheckC14(c *C14Case, st *Stats) error {
 	if !unclassifiedOnce {
 		unclassifiedOnce = true
 		unclassifiedViews(st)
+	}
+	if c.Big > 0 {
+		cc := *c
+		cc.Kinds = make([]Kind, c.Big)
+		for i := range cc.Kinds {
+			cc.Kinds[i] = c.BigKind
+		}
+		if c.BigOdd >= 0 && c.BigOdd < c.Big {
+			cc.Kinds[c.Big-1-c.BigOdd] = c.OddKind
+			if c.OddKind != c.BigKind {
+				st.MarkNonTrivial()
+			}
+		}
+		cc.Object = false
+		st.Count("mode.biglist")
+		return checkListViews(&cc, st)
 	}
 	// non-trivial: some kind occurs at least twice with another kind in between
 	for i := range c.Kinds {
